@@ -870,6 +870,78 @@ class Engine:
                     return V("block-exit-misplaced", bad[0][1], step=step, device=d.hostname, command=bad[0][3], received=rows)
         return self._direct_patchtree_check(ch, world)
 
+    @staticmethod
+    def _endifs_as_documented(shown):
+        """narrow signature of the known finding: every 'endif' of the shown patch closes an 'else' branch or is the
+        last statement of its filter (the only places where the Huawei formatter places one)"""
+        for i, (lv, cmd) in enumerate(shown):
+            if cmd != "endif":
+                continue
+            header = None
+            for j in range(i - 1, -1, -1):
+                if shown[j][0] == lv:
+                    header = shown[j][1]
+                    break
+                if shown[j][0] < lv:
+                    break
+            nxt = shown[i + 1] if i + 1 < len(shown) else None
+            last_in_filter = nxt is not None and nxt[1] == "end-filter"
+            if not (header == "else" or last_in_filter):
+                return False
+        return True
+
+    def _vendor_blocks(self, ch, world, PatchTree):
+        out = []
+
+        def plain(prefix, n):
+            t = PatchTree()
+            for i in range(1 + ch.draw(n, "vb-rows")):
+                t.add("%s %d" % (prefix, i), {})
+            return t
+
+        def if_chains(cond_prefix):
+            """statements of a policy body: plain rows and if / elseif / else chains"""
+            t = PatchTree()
+            k = 0
+            have_else = False       # config trees are dicts: a body cannot hold the row 'else' twice
+            for _ in range(1 + ch.draw(3, "vb-stmts")):
+                if ch.draw(3, "vb-plain") == 0:
+                    k += 1
+                    t.add("apply action%d" % k, {})
+                    continue
+                k += 1
+                t.add_block("if %s%d then" % (cond_prefix, k), plain("apply a%d" % k, 2))
+                for _e in range(ch.draw(3, "vb-elseif")):
+                    k += 1
+                    t.add_block("elseif %s%d then" % (cond_prefix, k), plain("apply b%d" % k, 2))
+                if not have_else and ch.draw(2, "vb-else") == 1:
+                    have_else = True
+                    t.add_block("else", plain("apply c%d" % k, 2))
+            return t
+        if ch.draw(3, "vb-any") == 0:
+            return out
+        if world.vname.startswith("huawei"):
+            for i in range(1 + ch.draw(2, "vb-n")):
+                if ch.draw(3, "vb-kind") == 0:
+                    out.append(("xpl as-path-list L%d" % i, plain("regular 65000", 3)))
+                else:
+                    out.append(("xpl route-filter F%d" % i, if_chains("cond")))
+        elif world.vname in ("cisco", "nexus", "arista"):
+            t = PatchTree()
+            for fam in ch.sample(["ipv4 unicast", "ipv6 unicast", "vpnv4"], 1 + ch.draw(2, "vb-af"), "vb-fams"):
+                t.add_block("address-family %s" % fam, plain("network 10.0.0", 3))
+            out.append(("router bgp 65000", t))
+        elif world.vname == "iosxr":
+            for i in range(1 + ch.draw(2, "vb-n")):
+                kind = ch.draw(3, "vb-kind")
+                if kind == 0:
+                    out.append(("prefix-set P%d" % i, plain("10.0.0.%d/32," % i, 3)))
+                elif kind == 1:
+                    out.append(("community-set C%d" % i, plain("65000:%d" % i, 3)))
+                else:
+                    out.append(("route-policy RP%d" % i, if_chains("destination in P")))
+        return out
+
     def _direct_patchtree_check(self, ch, world):
         """synthetic PatchTrees (distinct sibling rows, depth <= 4) through the same seam functions"""
         from annet.annlib.patching import PatchTree
@@ -890,6 +962,11 @@ class Engine:
                     t.add(row, {})
             return t
         pt = build(1)
+        # vendor-specific block exits (Huawei XPL end-filter/end-list/endif, Cisco exit-address-family, IOS-XR end-set /
+        # endif / end-policy): blocks whose rows select those exit statements
+        special = self._vendor_blocks(ch, world, PatchTree)
+        for row, sub in special:
+            pt.add_block(row, sub)
         fmt = world.vendor.make_formatter(indent="  ")
         shown = parse_shown_patch(fmt.patch(pt))
         paths = world.vendor.make_formatter(indent="").cmd_paths(pt)
@@ -900,9 +977,23 @@ class Engine:
             rows = [(getattr(c, "level", 0), c.cmd) for c in cl]
             body = rows[len(before):len(rows) - len(after)]
             if not (shown == flat == body):
-                return V("stream-differs-from-shown-patch", "direct-patchtree", shown=shown, cmd_paths=flat, body=body, do_commit=dc)
+                key = "direct-patchtree"
+                missing = list(shown)
+                for x in flat:
+                    if x in missing:
+                        missing.remove(x)
+                if flat == body and missing and all(cmd == "endif" for _lv, cmd in missing) and world.vname.startswith("huawei") \
+                        and len(flat) + len(missing) == len(shown) and self._endifs_as_documented(shown):
+                    key = "huawei-xpl-endif-collapsed"
+                v = V("stream-differs-from-shown-patch", key, shown=shown, cmd_paths=flat, body=body, do_commit=dc,
+                      missing_from_stream=missing)
+                if not self._known(v):
+                    return v
+                break
             if rows[:len(before)] != [(0, x) for x in before] or rows[len(rows) - len(after):] != [(0, x) for x in after]:
                 return V("wrapper-mismatch", "direct-patchtree", received=rows, want_before=before, want_after=after, do_commit=dc)
+        if special:
+            world.probe("vendor_specific_block_exits_checked")
         world.probe("direct_patchtree_checked")
         return None
 
